@@ -47,10 +47,10 @@ type Outcome struct {
 }
 
 type state struct {
-	tape     []Entry
-	pos      int
-	thorough bool
-	out      *Outcome
+	tape      []Entry
+	pos       int
+	thorough  bool
+	out       *Outcome
 	lastPanic string
 }
 
